@@ -5,7 +5,7 @@
    list-of-rows model: they are covered only by the cross-backend differential (C02_chunking_partial). *)
 From Coq Require Import Reals String List Lra Permutation.
 From TT Require Import lib.PreludeR lib.Stats lib.Plan lib.PlanSem model.ReadPlan genR.Aggr genR.Mean proofs.C14_pooling proofs.C12_agree
-  proofs.C02_invariance proofs.C01_denote proofs.C02_plan_perm.
+  proofs.C02_invariance proofs.C01_denote proofs.C02_plan_perm proofs.C02_chunks.
 Import ListNotations.
 Local Open Scope R_scope.
 
@@ -46,3 +46,15 @@ Print Assumptions C02_row_order_irrelevant.
 Print Assumptions C02_unrelated_columns_irrelevant.
 Print Assumptions C02_results_depend_on_statistics_only.
 Print Assumptions C02_plan_result_independent_of_row_order.
+
+(* chunk layout (a chunked table denotes the concatenation of its chunks): the same rows cut into chunks anywhere, and
+   chunks handed over in any order, give the same statistics.  An engine misreading a chunked table is outside a
+   list-of-rows model: C02_chunking_partial stays with the differential. *)
+Theorem C02_chunks_in_any_order f g (chs chs' : list (list row)) : Permutation chs chs' ->
+  cnt (concat chs) = cnt (concat chs') /\ smean f (concat chs) = smean f (concat chs') /\
+  scov f g (concat chs) = scov f g (concat chs').
+Proof. exact (chunks_in_any_order f g chs chs'). Qed.
+Theorem C02_cutting_a_table_anywhere (l : list row) k : concat [firstn k l; skipn k l] = l.
+Proof. exact (cut_concat l k). Qed.
+Print Assumptions C02_chunks_in_any_order.
+Print Assumptions C02_cutting_a_table_anywhere.
